@@ -1,6 +1,7 @@
 package main
 
 import (
+	"bytes"
 	"encoding/json"
 	"flag"
 	"fmt"
@@ -16,6 +17,8 @@ import (
 type declCase struct {
 	Kind  string          `json:"kind"` // opts | args
 	Decls json.RawMessage `json:"decls"`
+	// Version: index of the option declaration made through Cli.Version (absent: none)
+	Version *int `json:"version"`
 }
 
 type declResult struct {
@@ -39,7 +42,8 @@ func init() {
 
 func runDecl(c declCase) (r declResult) {
 	r.Address, r.RunErr = map[string][]int{}, map[string]string{}
-	restoreS := cli.VerifSetStreams(ioutil.Discard, ioutil.Discard)
+	var errBuf bytes.Buffer
+	restoreS := cli.VerifSetStreams(ioutil.Discard, &errBuf)
 	restoreE := cli.VerifSetExiter(func(code int) { panic(exitSentinel{code}) })
 	defer restoreS()
 	defer restoreE()
@@ -60,7 +64,13 @@ func runDecl(c declCase) (r declResult) {
 		vars := make([]*bool, len(lists))
 		for i, l := range lists {
 			i, l := i, l
-			p, m := try(func() { vars[i] = app.Bool(cli.BoolOpt{Name: strings.Join(l, " ")}) })
+			p, m := try(func() {
+				if c.Version != nil && *c.Version == i {
+					app.Version(strings.Join(l, " "), "VERSION-STRING-9.9")
+				} else {
+					vars[i] = app.Bool(cli.BoolOpt{Name: strings.Join(l, " ")})
+				}
+			})
 			r.Panics, r.Msgs = append(r.Panics, p), append(r.Msgs, m)
 		}
 		app.Action = func() {}
@@ -83,6 +93,7 @@ func runDecl(c declCase) (r declResult) {
 						*v = false
 					}
 				}
+				errBuf.Reset()
 				p, m := try(func() {
 					if err := app.Run([]string{"app", spelled}); err != nil {
 						r.RunErr[spelled] = err.Error()
@@ -92,6 +103,9 @@ func runDecl(c declCase) (r declResult) {
 					r.RunErr[spelled] = "panic: " + m
 				}
 				set := []int{}
+				if c.Version != nil && strings.Contains(errBuf.String(), "VERSION-STRING-9.9") {
+					set = append(set, *c.Version) // the version flag "sets" nothing: it answers
+				}
 				for k, v := range vars {
 					if v != nil && *v {
 						set = append(set, k)
